@@ -50,7 +50,7 @@ constexpr auto ceil_check(T const x) noexcept -> T
             abs(x) >= T(1) / etl::numeric_limits<T>::epsilon() ? x
                       :
                       // else
-            ceil_int(x, T(static_cast<llint_t>(x)))
+            x < T(0) ? -T(static_cast<llint_t>(-x)) : ceil_int(x, T(static_cast<llint_t>(x)))
     );
 }
 
